@@ -559,20 +559,30 @@ func ruleMergeCollide(c *Ctx) []Obligation {
 		return []Obligation{bad(R, con, pos, "the link function never looks the incoming name up in the target: a collision overwrites the existing child silently")}
 	}
 	header := loopHeaderOf(look.Block())
+	// the block entered when the name is already present: any of the forms presenceOf knows, possibly two tests
+	// in a row (se, ok := e.Dir[k]; ok && se != nil)
 	var collide *ssa.BasicBlock
-	for _, r := range *look.Referrers() {
-		if bo, okb := r.(*ssa.BinOp); okb {
-			if _, isEq, okn := nilTest(bo); okn {
-				for _, rr := range *bo.Referrers() {
-					if ifi, oki := rr.(*ssa.If); oki {
-						if isEq {
-							collide = ifi.Block().Succs[1]
-						} else {
-							collide = ifi.Block().Succs[0]
-						}
-					}
-				}
-			}
+	ifBlocks := map[*ssa.BasicBlock]bool{}
+	var succs []*ssa.BasicBlock
+	for _, b := range merge.Blocks {
+		ifi, isIf := b.Instrs[len(b.Instrs)-1].(*ssa.If)
+		if !isIf {
+			continue
+		}
+		pl, presentOnTrue, isP := presenceOf(ifi.Cond)
+		if !isP || pl != look {
+			continue
+		}
+		ifBlocks[b] = true
+		if presentOnTrue {
+			succs = append(succs, b.Succs[0])
+		} else {
+			succs = append(succs, b.Succs[1])
+		}
+	}
+	for _, sblk := range succs {
+		if !ifBlocks[sblk] {
+			collide = sblk
 		}
 	}
 	if collide == nil || header == nil {
